@@ -1,4 +1,4 @@
 CONSTANTS S = 4  Stride = 16  GroupMax = 14  MaxRun = 12
 SPECIFICATION Spec
-INVARIANTS EmitStats ProjectionExact C05_WellFormed C05_KeepExtends
+INVARIANTS EmitStats ProjectionExact C05_WellFormed C05_KeepExtends C05_CollapsedPartsKept
 CHECK_DEADLOCK FALSE
